@@ -288,6 +288,68 @@ pub fn c03(ctx: &mut Ctx) {
     ctx.flush_model("C03-kzg10");
     let n = ctx.n(6, 60);
     batch_shapes(ctx, "C03", n);
+    real_setup_compensation(ctx);
+}
+
+/// Keys from the LIBRARY's own `setup` (not trapdoor-made): an honest hiding proof with the value raised by δ and
+/// `random_v` lowered by δ is accepted iff `δ·(g − γg) = 0` (C03.kzg10_value_and_rv) — i.e. only if the hiding
+/// generator coincides with the plain one. Also through MarlinKZG10 and SonicKZG10 (`random_v` lowered by ξ·δ).
+fn real_setup_compensation(ctx: &mut Ctx) {
+    use ark_crypto_primitives::sponge::CryptographicSponge;
+    use ark_poly_commit::{LabeledPolynomial, PolynomialCommitment, CHALLENGE_SIZE};
+    for i in 0..ctx.n(5, 30) {
+        let id = format!("C03/kzg10-real-setup/{}", i);
+        if !ctx.selected(&id) {
+            continue;
+        }
+        let mut rng = rng_for(ctx.seed, "C03/kzg10-real-setup", i as u64);
+        let d = range(&mut rng, 2, 12);
+        let pp = match guarded(|| Kzg::setup(d, false, &mut rng)) { Ok(Ok(p)) => p, _ => continue };
+        let (powers, vk) = trim(&pp, d);
+        let pd = range(&mut rng, 1, d);
+        let p = <UniPoly as ark_poly::DenseUVPolynomial<Fr>>::rand(pd, &mut rng);
+        let hb = range(&mut rng, 1, d - 1);
+        let (c, r) = match guarded(|| Kzg::commit(&powers, &p, Some(hb), Some(&mut rng))) { Ok(Ok(x)) => x, _ => continue };
+        let z = Fr::rand(&mut rng);
+        let v = p.evaluate(&z);
+        let proof = match guarded(|| Kzg::open(&powers, &p, z, &r)) { Ok(Ok(x)) => x, _ => continue };
+        let delta = rand_nonzero(&mut rng);
+        let honest_ok = matches!(guarded(|| Kzg::check(&vk, &c, z, v, &proof)), Ok(Ok(true)));
+        let forged = Proof::<Bls12_381> { w: proof.w, random_v: proof.random_v.map(|x| x - delta) };
+        let forged_ok = matches!(guarded(|| Kzg::check(&vk, &c, z, v + delta, &forged)), Ok(Ok(true)));
+        let mut bad = vec![];
+        if !honest_ok { bad.push("honest hiding proof rejected".to_string()); }
+        if forged_ok { bad.push("KZG10::check accepted value+δ with random_v−δ".to_string()); }
+        // the same through the two KZG-based trait schemes (first opening challenge ξ scales the compensation)
+        macro_rules! via_trait {
+            ($pc:ty, $name:expr) => {{
+                type PC = $pc;
+                if let Ok(Ok((ck, tvk))) = guarded(|| <PC as PolynomialCommitment<Fr, UniPoly>>::trim(&pp, d, hb, None)) {
+                    let lp = LabeledPolynomial::new("p".to_string(), p.clone(), None, Some(hb));
+                    if let Ok(Ok((cs, sts))) = guarded(|| <PC as PolynomialCommitment<Fr, UniPoly>>::commit(&ck, [&lp], Some(&mut rng.clone()))) {
+                        let mut sp = crate::generic::fresh_sponge();
+                        if let Ok(Ok(pr)) = guarded(|| <PC as PolynomialCommitment<Fr, UniPoly>>::open(&ck, [&lp], &cs, &z, &mut sp, &sts, Some(&mut rng.clone()))) {
+                            let xi: Fr = crate::generic::fresh_sponge().squeeze_field_elements_with_sizes(&[CHALLENGE_SIZE])[0];
+                            let mut f = pr.clone();
+                            f.random_v = f.random_v.map(|x| x - xi * delta);
+                            let ok_h = matches!(guarded(|| <PC as PolynomialCommitment<Fr, UniPoly>>::check(&tvk, &cs, &z, [v], &pr, &mut crate::generic::fresh_sponge(), None)), Ok(Ok(true)));
+                            let ok_f = matches!(guarded(|| <PC as PolynomialCommitment<Fr, UniPoly>>::check(&tvk, &cs, &z, [v + delta], &f, &mut crate::generic::fresh_sponge(), None)), Ok(Ok(true)));
+                            if !ok_h { bad.push(format!("{}: honest hiding proof rejected", $name)); }
+                            if ok_f { bad.push(format!("{}: check accepted value+δ with random_v−ξ·δ", $name)); }
+                        }
+                    }
+                }
+            }};
+        }
+        via_trait!(crate::generic::MarlinPC, "marlin");
+        via_trait!(crate::generic::SonicPC, "sonic");
+        if !bad.is_empty() {
+            ctx.rep.expect_fail(&id, "kzg10/forged-proof-accepted/value-compensated-by-random_v",
+                &format!("keys from the library's setup: {}", bad.join("; ")),
+                format!("# scheme: kzg10 / marlin / sonic on KZG10::setup({})\n# case: {}\n# seed: {}\n# hiding bound {} point {} delta {}\n# rerun: .build/cargo/debug/pcv-harness C03 --seed {} --only {}\n", d, id, ctx.seed, hb, crate::wire::fe(&z), crate::wire::fe(&delta), ctx.seed, id));
+        }
+        ctx.rep.case(&format!("kzg10 real setup d={} hb={} compensation forged_ok={}", d, hb, forged_ok), Some(format!("kzg10/real-setup/{}/{}", d, hb)));
+    }
 }
 
 pub fn c05(ctx: &mut Ctx) {
